@@ -43,7 +43,7 @@ CONSTANT Variant      \* "intended" | "asimpl" | "inplace" | "all" (each behavio
 Modes   == {"0644", "0600", "0755", "0444"}
 TmpMode == "0600"                   \* what os.CreateTemp asks for
 Kinds   == {"unfmt", "fmtd", "bad"} \* parses+changes, parses+fixed point, does not parse
-Errnos  == {"ENOSPC", "EIO", "EACCES"}
+Errnos  == {"ENOSPC", "EIO", "EACCES", "EPERM"}
 Ops     == {"write", "check", "checkstdin"}
 
 FsCalls   == {"open_src", "stat_src", "read_src", "close_src", "create_tmp", "write_tmp",
